@@ -236,11 +236,11 @@ def topology_strategy(draw, flavour, eqpt):
     # amplifier the user placed; otherwise the auto-design name of the booster)
     for ml in meta_links:
         first = next(e for e in elements if e['uid'] == ml['first'])
-        if first['type'] == 'Fiber' and first['params']['length'] > 100:
-            continue    # the fibre will be split and renamed by auto-design: the booster name is not predictable
-        if draw(st.integers(0, 5)) == 0:
+        if first['type'] != 'Edfa':
+            continue    # a topology *file* may only name degrees that exist in it (YANG leafref): user-placed boosters
+        if draw(st.integers(0, 2)) == 0:
             r = next(e for e in elements if e['uid'] == f'roadm {ml["from"]}')
-            deg = first['uid'] if first['type'] == 'Edfa' else f'Edfa_booster_roadm {ml["from"]}_to_{first["uid"]}'
+            deg = first['uid']
             params = r.setdefault('params', {})
             kind = draw(st.integers(0, 2))
             if kind == 0:
